@@ -1,11 +1,11 @@
 // compile: clang++-14 -std=c++17 -O1 -DNDEBUG -I /repo/tooling/internal/cpp/include <this file> -o replay && ./replay
 // (drop -DNDEBUG to see the debug-build assertion)
 // property C16, violation key cc:ReadByte:stale-after-empty-refill
-// ReadByte<ReadByte>: load of 1 byte(s) at buffer offset 0 lies outside [data, buffer_end_ptr_): stale bytes are decoded after FillBuffer() delivered fewer bytes than the decoder consumes; call chain ReadByte < h_ReadByte
+// ReadByte (entry point ReadByte): load of 1 byte(s) at buffer offset 0 lies outside [data, buffer_end_ptr_): stale bytes are decoded after FillBuffer() delivered fewer bytes than the decoder consumes, the call returns normally instead of throwing EndOfStreamException and leaves buffer_ptr_ > buffer_e
 // spec: throw yardl::binary::EndOfStreamException
-// native observation (release build): ret 0 / drain 000000000000000000000000000000000000000000000000000000
-// debug build, same call twice: exit 0
-#define BAKED_ARGS {"R", "32", "", "ReadByte", "drain"}
+// native observation (release build): ret 0 / drain 000000000000000000000000000000000000000000000011100000
+// debug build (no -DNDEBUG) with the operation repeated (args  ReadByte ReadByte): exit 0
+#define BAKED_ARGS {"R", "8", "", "ReadByte", "drain"}
 // Native replay driver for coded_stream.h (real, unmodified header; public API only).
 //
 //   replay_kernels R <N> <hex stream bytes> <cmd>...     reader script
